@@ -50,6 +50,8 @@ def tool_env():
 
 def run(argv, cwd=None, stdin=None, timeout=120, stdout=subprocess.PIPE, input=None):
     """Run a tool; returns CompletedProcess (bytes)."""
+    if stdin is None and input is None:
+        stdin = subprocess.DEVNULL          # a tool that wrongly turns to standard input must not wait for the terminal
     try:
         return subprocess.run(argv, cwd=cwd, stdin=stdin, input=input, stdout=stdout, stderr=subprocess.PIPE,
                               env=tool_env(), timeout=timeout)
